@@ -1,0 +1,111 @@
+//! Verification hooks, only compiled with `--cfg a10_verif`.
+//!
+//! This module contains no logic of its own: it only holds function tables
+//! that an external checker can install and the dispatchers the rest of the
+//! crate calls. With nothing installed every dispatcher is a no-op and the
+//! crate behaves exactly as without the `a10_verif` cfg.
+
+use std::ffi::c_void;
+use std::ptr;
+use std::sync::atomic::{AtomicPtr, Ordering};
+
+/// Replacement for the three io_uring system calls.
+///
+/// Each function must behave like `syscall(2)`: return `-1` and set `errno` on
+/// error.
+pub struct Kernel {
+    /// `io_uring_setup(2)`, `params` points to a `struct io_uring_params`.
+    pub setup: unsafe fn(entries: u32, params: *mut c_void) -> i32,
+    /// `io_uring_enter2(2)`.
+    pub enter: unsafe fn(
+        fd: i32,
+        to_submit: u32,
+        min_complete: u32,
+        flags: u32,
+        arg: *const c_void,
+        size: usize,
+    ) -> i32,
+    /// `io_uring_register(2)`.
+    pub register: unsafe fn(fd: i32, opcode: u32, arg: *const c_void, nr_args: u32) -> i32,
+}
+
+/// Scheduling point callbacks.
+pub struct Scheduler {
+    /// Called before `mutex` is locked (blocking). `probe(mutex)` returns true
+    /// if the mutex can be locked at the moment of the call, it doesn't keep
+    /// the mutex locked and never touches the protected value. Once this
+    /// returns the caller locks the mutex for real.
+    pub before_lock: fn(mutex: *const (), probe: unsafe fn(*const ()) -> bool),
+    /// Called before (and for stores also after, with `kind | SYNC_AFTER`) an
+    /// access to a word shared with the kernel or another thread.
+    pub sync_point: fn(kind: u32, addr: *const ()),
+}
+
+/// Load of a kernel shared 32 bit word (ring head, tail or flags).
+pub const SYNC_LOAD_SHARED: u32 = 1;
+/// Store to the submission queue tail.
+pub const SYNC_STORE_SQ_TAIL: u32 = 2;
+/// Store to the completion queue head.
+pub const SYNC_STORE_CQ_HEAD: u32 = 3;
+/// Load of the buffer ring tail.
+pub const SYNC_LOAD_BUF_TAIL: u32 = 4;
+/// Store to the buffer ring tail.
+pub const SYNC_STORE_BUF_TAIL: u32 = 5;
+/// `PollingState::set_polling`.
+pub const SYNC_SET_POLLING: u32 = 6;
+/// `PollingState::wake`.
+pub const SYNC_WAKE_POLLING: u32 = 7;
+/// Non blocking attempt to lock a mutex.
+pub const SYNC_TRY_LOCK: u32 = 8;
+/// Read of a completion queue entry.
+pub const SYNC_READ_CQE: u32 = 9;
+/// Set for the call made after a store.
+pub const SYNC_AFTER: u32 = 0x100;
+
+static KERNEL: AtomicPtr<Kernel> = AtomicPtr::new(ptr::null_mut());
+static SCHEDULER: AtomicPtr<Scheduler> = AtomicPtr::new(ptr::null_mut());
+
+/// Install (or remove) the replacement kernel.
+pub fn install_kernel(kernel: Option<&'static Kernel>) {
+    let ptr = kernel.map_or(ptr::null_mut(), |k| ptr::from_ref(k).cast_mut());
+    KERNEL.store(ptr, Ordering::SeqCst);
+}
+
+/// Install (or remove) the scheduler callbacks.
+pub fn install_scheduler(scheduler: Option<&'static Scheduler>) {
+    let ptr = scheduler.map_or(ptr::null_mut(), |s| ptr::from_ref(s).cast_mut());
+    SCHEDULER.store(ptr, Ordering::SeqCst);
+}
+
+pub(crate) fn kernel() -> Option<&'static Kernel> {
+    // SAFETY: only ever set to a `&'static Kernel` (or null).
+    unsafe { KERNEL.load(Ordering::SeqCst).as_ref() }
+}
+
+fn scheduler() -> Option<&'static Scheduler> {
+    // SAFETY: only ever set to a `&'static Scheduler` (or null).
+    unsafe { SCHEDULER.load(Ordering::SeqCst).as_ref() }
+}
+
+/// Scheduling point for an access of kind `kind` to `addr`.
+pub(crate) fn sync_point<T>(kind: u32, addr: *const T) {
+    if let Some(scheduler) = scheduler() {
+        (scheduler.sync_point)(kind, addr.cast());
+    }
+}
+
+/// Scheduling point before blocking on `mutex`.
+pub(crate) fn before_lock<T>(mutex: &std::sync::Mutex<T>) {
+    unsafe fn probe<T>(mutex: *const ()) -> bool {
+        // SAFETY: caller passes the pointer handed to `before_lock`.
+        let mutex = unsafe { &*mutex.cast::<std::sync::Mutex<T>>() };
+        !matches!(
+            mutex.try_lock(),
+            Err(std::sync::TryLockError::WouldBlock)
+        )
+    }
+
+    if let Some(scheduler) = scheduler() {
+        (scheduler.before_lock)(ptr::from_ref(mutex).cast(), probe::<T>);
+    }
+}
